@@ -481,7 +481,7 @@ def plan(tier, seed):
 
 def finish(acc, tier, seed):
     reasons = []
-    if acc.counters.get("grammars", 0) < (300 if tier == "quick" else 4000):
+    if acc.counters.get("grammars", 0) < (300 if tier == "quick" else 3000):
         reasons.append(f"only {acc.counters.get('grammars', 0)} grammars generated")
     if acc.counters.get("result_ok", 0) < 8 * acc.counters.get("grammars", 0):
         reasons.append("accepting side hardly exercised")
